@@ -224,10 +224,24 @@ class Mir:
                 if len(cands) == 1:
                     mod = cands[0][0]
                 elif len(cands) > 1:
-                    same = [c for c in cands if c[1] == len(f.params)]
-                    already = [x[2] for x in self.defs.get((None, short), [])]
-                    same = [c for c in same if c[0] not in already] or same
-                    mod = same[0][0] if same else cands[0][0]
+                    same = [c for c in cands if c[1] == len(f.params)] or cands
+                    mods = [c[0] for c in same]
+                    # the dump follows source order: the nearest definitions that carry an `impl at src/..` span tell the file
+                    pos = self.order.index(n)
+                    mod = None
+                    for delta in range(1, len(self.order)):
+                        for q in (pos - delta, pos + delta):
+                            if 0 <= q < len(self.order):
+                                mm = re.search(r'<impl at (src/[^:]+):', self.order[q])
+                                if mm and os.path.basename(mm.group(1))[:-3] in mods:
+                                    mod = os.path.basename(mm.group(1))[:-3]
+                                    break
+                        if mod:
+                            break
+                    if mod is None:
+                        already = [x[2] for x in self.defs.get((None, short), [])]
+                        rest = [c for c in mods if c not in already] or mods
+                        mod = rest[0]
                 self.defs.setdefault((None, short), []).append((n, None, mod, None))
 
     # ------------------------------------------------------------ resolution
